@@ -21,6 +21,9 @@ Definition mask_list (nf : nat) (mask : option (list bool)) : list bool :=
 (* a row of the pipeline carries the coordinates of the face it names *)
 Definition fd_wf (vs : list (vec3 R)) (d : @fdata R) : Prop := lookup3 vs (fd_f d) = Some (fd_t d).
 
+(* a (mapping entry, triangle) pair of a result with the mapping entry replaced by the input face it names *)
+Definition with_source (fs : list face) (p : nat * option (tri R)) : option face * option (tri R) := (nth_error fs (fst p), snd p).
+
 Local Open Scope R_scope.
 (* ---- geometry ------------------------------------------------------------------------------------------------------- *)
 Definition pd (n o : vec3 R) (v : vec3 R) : R := plane_dot ROps n o v.
